@@ -49,10 +49,17 @@ def oracle_identity(case, rec):
         rec.cls('fam=' + case['gen']['fam'])
     if not math.isfinite(got) or abs(got - ref) > t:
         raise Violation(f'corrected score {got!r} != H(Y*|X)-H(Y|X) = {ref!r} (tol {t:.2e}), n={len(Xl)}')
-    # heuristic name -> correction flag
-    via = float(ie.numba_mi(np.asarray(Y), np.asarray(X), 'MI-numba-randomized', 1.0))
-    if abs(via - ref) > t:
-        raise Violation(f'numba_mi("MI-numba-randomized") = {via!r} != corrected reference {ref!r}', kind='C03/heuristic-flag')
+    # heuristic name -> correction flag, in a generated order of calls within one process (a history): the flag must follow
+    # the name passed to THIS call, whatever earlier calls used
+    if len(Xl) <= 5000:
+        names = ['MI-numba-3mr', 'MI-numba-randomized'] if (len(Xl) + sum(Xl[:3])) % 2 else ['MI-numba-randomized', 'MI-numba-3mr']
+        plain = rm.mi_ref(Yl, Xl)
+        for nm in names + names[:1]:
+            via = float(ie.numba_mi(np.asarray(Y), np.asarray(X), nm, 1.0))
+            want = ref if nm == 'MI-numba-randomized' else plain
+            if abs(via - want) > t:
+                raise Violation(f'numba_mi(..., {nm!r}) = {via!r}, expected {want!r} ({"corrected" if nm == "MI-numba-randomized" else "plain"} score) '
+                                f'after the call sequence {names + names[:1]}', kind='C03/heuristic-flag')
 
 
 def oracle_corollaries(case, rec):
@@ -123,7 +130,7 @@ def oracle_ranking(case, rec):
                         f'(n={n}, seed={case["k"]})')
 
 
-ORACLES = {'C03/identity': oracle_identity, 'C03/exhaustive': oracle_identity, 'C03/heuristic-flag': oracle_identity,
+ORACLES = {'C03/wide': oracle_identity, 'C03/identity': oracle_identity, 'C03/exhaustive': oracle_identity, 'C03/heuristic-flag': oracle_identity,
            'C03/corollaries': oracle_corollaries, 'C03/constant-feature': oracle_corollaries,
            'C03/identifier-feature': oracle_corollaries, 'C03/self': oracle_corollaries, 'C03/ranking': oracle_ranking}
 
@@ -197,5 +204,6 @@ def run(ctx):
         Clause('C03/identity', pair, oracle_identity, quick=1500, thorough=60000, quick_shards=4),
         Clause('C03/corollaries', corollary_case, oracle_corollaries, quick=600, thorough=20000, quick_shards=3),
         Clause('C03/ranking', planted_case, oracle_ranking, quick=48, thorough=3000, quick_shards=6),
+        Clause('C03/wide', lambda: gens.wide_pair(), oracle_identity, quick=2, thorough=32, quick_shards=2, thorough_shards=16),
     ]
     drive(ctx, clauses)
